@@ -526,6 +526,13 @@ def systematic_texts():
               'constraints{ fragment f{C labeled x} r1 contains >1 of f && r1.charge = 0 } break bond (c1, h1)',
               'constraints{ r1.formula is C 2 H 6 } break bond (c1, h1)', 'constraints{ (r1 is aromatic) || ! r1 is foo } break bond (c1, h1)'):
         out.append(base % t)
+    # `modify number of radical` is balanced against the radical count the pattern declares (suffix or `has =n radical electrons`)
+    for sfx in [''] + literal_alts('AtomSuffix'):
+        for chain in ('', '{has 1 radical electrons}', '{has =2 radical electrons}', '{! has =1 radical electrons}', '{has >0 radical electrons}',
+                      '{in ring of size 3, has 0 radical electrons}'):
+            for n in (0, 1, 2):
+                out.append('rule r{reactant r1{C%s labeled c1 %s H labeled h1 single bond to c1 %s} modify number of radical (%s, %d)}'
+                           % (sfx, chain, chain if n == 2 else '', 'c1' if n < 2 or not chain else 'h1', n))
     base2 = 'rule r{reactant r1{C labeled c1 H labeled h1 single bond to c1 H labeled h2 any bond to c1} reactant r2{O labeled x1} %s}'
     labs = ['c1', 'h1', 'h2', 'x1', 'zz']
     for a in labs:
